@@ -148,3 +148,15 @@ def run(ctx):
         j.move(rep(F(3)), F(-7, 3)); j.scale(F(5, 2), rep(F(2)))
         ok = all(core.isfrac(c) for v in j.vertices for c in v) and [tuple(v) for v in j.vertices] == [((x + 3) * F(5, 2), (y - F(7, 3)) * 2) for x, y in vss[0]]
         ctx.check(ok, "move/scale of rational data is not exact", desc)
+        # a shape that has ALREADY been measured (caches warm), then scaled / moved in place: the new measures are the exact rationals of the new geometry
+        S1 = impl.poly(vss[0])
+        m0 = {(a, b): IntegrateShape.polynomial(S1, a, b) for (a, b) in [(0, 0), (1, 0), (0, 1)]}
+        float(S1); str(S1)
+        sx, sy, dx, dy = F(rng.randint(2, 5), rng.choice([1, 3])), F(rng.randint(1, 4), rng.choice([1, 2, 7])), F(rng.randint(-5, 5), 2), F(rng.randint(-5, 5), 3)
+        S1.scale(rep(sx), sy); S1.move(dx, rep(dy))
+        vs1 = [(x * sx + dx, y * sy + dy) for x, y in vss[0]]
+        for (a, b) in [(0, 0), (1, 0), (0, 1), (1, 1)]:
+            got = IntegrateShape.polynomial(S1, a, b)
+            exp = F(drv.ask(f"moment S {core.epoly(vs1)} {a} {b}"))
+            ctx.check(core.isfrac(got) and got == exp, "moment after measuring, scaling and moving in place is not the exact rational of the new geometry",
+                      {**desc, "scale": (sx, sy), "move": (dx, dy), "a": a, "b": b}, exp, got)
